@@ -229,6 +229,8 @@ pub struct Violation {
 pub struct Report {
     pub evaluations: u64,
     pub digests: HashSet<u64>,
+    /// cases known to be pairwise distinct by construction (exhaustive enumerations): counted, not stored
+    pub distinct_by_construction: u64,
     pub classes: BTreeMap<String, u64>,
     pub required: BTreeSet<String>,
     /// classes that must be observed by *this item* (checked by the runner when the item ends)
@@ -259,6 +261,15 @@ impl Report {
         self.evaluations += 1;
         if nontrivial {
             self.digests.insert(d);
+        }
+    }
+    /// Record one evaluation of a case that is distinct from every other by construction (an
+    /// exhaustive enumeration); counted without storing a digest.
+    #[inline]
+    pub fn eval_enumerated(&mut self, nontrivial: bool) {
+        self.evaluations += 1;
+        if nontrivial {
+            self.distinct_by_construction += 1;
         }
     }
     #[inline]
@@ -357,6 +368,7 @@ impl Report {
     }
     pub fn merge(&mut self, o: Report) {
         self.evaluations += o.evaluations;
+        self.distinct_by_construction += o.distinct_by_construction;
         if self.digests.is_empty() {
             self.digests = o.digests;
         } else {
@@ -399,7 +411,7 @@ impl Report {
             "tier": if args.quick() {"quick"} else {"thorough"},
             "seed": args.seed,
             "evaluations": self.evaluations,
-            "distinct_nontrivial": self.digests.len(),
+            "distinct_nontrivial": self.digests.len() as u64 + self.distinct_by_construction,
             "rule": rule,
             "classes": self.classes,
             "required_missing": missing,
